@@ -74,8 +74,20 @@ def _gen_core(rng, tier):
             yield Case(op, [rows_str(rows)], nontriv(rows), op)
 
 
+    # rows holding bytes >= 0x80 (Latin-1 / Windows-1252 dashes and blanks, ill-formed and well-formed UTF-8, runes whose
+    # case pair has another encoded length): no model for these bytes, but the length and the ASCII positions are judged
+    specials = [b"\x96", b"\xa0", b"\xe9", b"\xff", b"\xb5", b"\xc4\xb1", b"\xc5\xbf", b"\xe2\x84\xaa", b"\xc4\xb0", b"\xc3\xa9", b"\xef\xbf\xbd", b"\x80"]
+    for _ in range(N // 4):
+        bs = b""
+        for _ in range(rng.randint(1, 10)):
+            bs += rng.choice(specials) if rng.random() < 0.3 else rng.choice(ALPHA + "-aAzZnN").encode()
+        yield Case("casehex", [rng.choice(["up", "low"]), bs.hex() or "_"], True, "case-nonascii")
+
+
 def shrink(c):
     """drop rows, then drop residues"""
+    if c.op == "casehex":
+        return
     ai = {"revcomp": 1, "revcompsub": 1}.get(c.op, 0)
     s = c.args[ai]
     if s == "_":
